@@ -87,6 +87,14 @@ func run(e *simcore.Env, tp *simcore.Tape, oracle string, checkOrder bool) {
 		}
 		return out
 	}
+	// shared payloads: the trace engine stores one entry per SPAN with the trace id as payload, so several entries of a
+	// series carry the same payload and the index returns a payload once per block. In this mode "every matching entry"
+	// becomes "every payload that has a matching entry is returned at least once" (what a trace query needs).
+	dupPayloads := tp.Side().Bool(1, 3)
+	if dupPayloads {
+		e.Probe("reach.entries_share_payloads")
+		e.Event("entries share payloads (one entry per span, payload = trace id)")
+	}
 	nOps := tp.Range(3, 18)
 	for op := 0; op < nOps && !e.Failed(); op++ {
 		e.Step()
@@ -97,6 +105,9 @@ func run(e *simcore.Env, tp *simcore.Tape, oracle string, checkOrder bool) {
 			for i := 0; i < n; i++ {
 				nextData++
 				en := entry{sid: common.SeriesID(tp.Range(1, nSeries)), key: int64(tp.Choose(keyRange)) - int64(keyRange/4), data: fmt.Sprintf("d%06d", nextData)}
+				if dupPayloads {
+					en.data = fmt.Sprintf("trace-%02d", tp.Side().Choose(5))
+				}
 				model = append(model, en)
 				reqs = append(reqs, sidx.WriteRequest{SeriesID: en.sid, Key: en.key, Data: []byte(en.data)})
 			}
@@ -229,12 +240,13 @@ func run(e *simcore.Env, tp *simcore.Tape, oracle string, checkOrder bool) {
 				got = syncList
 				budget = req.MaxBatchSize // the synchronous interface treats MaxBatchSize as a top-N budget
 			}
-			if cls, msg := compare(want, got, asc, budget, checkOrder); cls != "" {
+			if cls, msg := compare(want, got, asc, budget, checkOrder, dupPayloads); cls != "" {
 				msg += fmt.Sprintf("\n  returned: %v", got)
 				mode := ":unbatched"
 				if req.MaxBatchSize > 0 {
 					mode = ":batched" // MaxBatchSize > 0: results are produced scan batch by scan batch
-				} else if *sidx.VerifKnobs()["maxBlockLength"] < 64 {
+				} else if *sidx.VerifKnobs()["maxBlockLength"] < 64 || (len(mem)+len(flushed))*len(sids) > 32 {
+					// (or so many parts that parts x queried series exceeds one scan batch of 32 blocks)
 					// blocks of a few entries (size knob shrunk): one query touches more blocks than one scan batch holds
 					// even without MaxBatchSize, the situation of a large index at the shipped block size
 					mode = ":unbatched:tiny-blocks"
@@ -296,7 +308,40 @@ func collectStreaming(ctx context.Context, idx sidx.SIDX, req sidx.QueryRequest)
 
 // compare checks an answer: members only, no entry twice, key order; complete when budget == 0, otherwise the
 // ordered top of the result: at least min(budget, all) entries and nothing skipped below the last returned key.
-func compare(want map[entry]int, got []entry, asc bool, budget int, checkOrder bool) (string, string) {
+func compare(want map[entry]int, got []entry, asc bool, budget int, checkOrder, dupPayloads bool) (string, string) {
+	if dupPayloads {
+		// soundness and order as usual; completeness per payload (and only for unbudgeted requests)
+		seenP := map[string]bool{}
+		cnt := map[entry]int{}
+		for i, en := range got {
+			cnt[en]++
+			seenP[en.data] = true
+			if want[en] == 0 {
+				return "entry-not-written-or-out-of-range", fmt.Sprintf("returned entry %s was never written / lies outside the request", en)
+			}
+			if cnt[en] > want[en] {
+				return "entry-returned-twice", fmt.Sprintf("entry %s returned %d times, written %d times", en, cnt[en], want[en])
+			}
+			if i > 0 && checkOrder {
+				if asc && got[i-1].key > en.key || !asc && got[i-1].key < en.key {
+					return "not-in-key-order", fmt.Sprintf("entries %d and %d out of key order: %s then %s", i-1, i, got[i-1], en)
+				}
+			}
+		}
+		if budget == 0 {
+			var miss []string
+			for en := range want {
+				if !seenP[en.data] {
+					miss = append(miss, en.String())
+				}
+			}
+			if len(miss) > 0 {
+				sort.Strings(miss)
+				return "payload-with-matching-entry-missing", fmt.Sprintf("%d matching entries belong to payloads the answer does not contain at all, first: %s", len(miss), miss[0])
+			}
+		}
+		return "", ""
+	}
 	seen := map[entry]int{}
 	for i, en := range got {
 		seen[en]++
